@@ -281,12 +281,43 @@ func (c *admCase) cleanup() {
 // ---------------------------------------------------------------------------
 // client-side byte scripts
 
+// the bytes an RTMP client sends up to publish / play, built here (not with lal's MessagePacker, whose
+// buffer handling is itself under test): handshake, SetChunkSize, connect, createStream, publish | play
+func rtmpCmd(csid int, typeid uint8, msid int, body []byte) []byte {
+	h := base.RtmpHeader{Csid: csid, MsgLen: uint32(len(body)), MsgTypeId: typeid, MsgStreamId: msid, TimestampAbs: 0}
+	return rtmp.Message2Chunks(body, &h)
+}
+
 func rtmpClientScript(app, streamWithQuery string, publish bool) []byte {
 	var b bytes.Buffer
 	b.WriteByte(3)
 	b.Write(make([]byte, 1536)) // C1, simple handshake (version field zero)
 	b.Write(make([]byte, 1536)) // C2
-	b.Write(rtmp.VerifPackSeq(app, "rtmp://127.0.0.1/"+app, streamWithQuery, publish))
+	b.Write(rtmpCmd(2, base.RtmpTypeIdSetChunkSize, 0, []byte{0, 0, 0x10, 0}))
+	var m bytes.Buffer
+	_ = rtmp.Amf0.WriteString(&m, "connect")
+	_ = rtmp.Amf0.WriteNumber(&m, 1)
+	_ = rtmp.Amf0.WriteObject(&m, []rtmp.ObjectPair{{Key: "app", Value: app}, {Key: "type", Value: "nonprivate"},
+		{Key: "flashVer", Value: "probe"}, {Key: "tcUrl", Value: "rtmp://127.0.0.1/" + app}})
+	b.Write(rtmpCmd(3, base.RtmpTypeIdCommandMessageAmf0, 0, m.Bytes()))
+	m.Reset()
+	_ = rtmp.Amf0.WriteString(&m, "createStream")
+	_ = rtmp.Amf0.WriteNumber(&m, 2)
+	_ = rtmp.Amf0.WriteNull(&m)
+	b.Write(rtmpCmd(3, base.RtmpTypeIdCommandMessageAmf0, 0, m.Bytes()))
+	m.Reset()
+	if publish {
+		_ = rtmp.Amf0.WriteString(&m, "publish")
+	} else {
+		_ = rtmp.Amf0.WriteString(&m, "play")
+	}
+	_ = rtmp.Amf0.WriteNumber(&m, 3)
+	_ = rtmp.Amf0.WriteNull(&m)
+	_ = rtmp.Amf0.WriteString(&m, streamWithQuery)
+	if publish {
+		_ = rtmp.Amf0.WriteString(&m, "live")
+	}
+	b.Write(rtmpCmd(5, base.RtmpTypeIdCommandMessageAmf0, 1, m.Bytes()))
 	return b.Bytes()
 }
 
@@ -596,7 +627,11 @@ func (c *admCase) doOp(op string) string {
 		}
 		q := ""
 		if len(f) > 3 {
-			q = "?" + f[3] + "=1"
+			if strings.HasPrefix(f[3], "L") { // L<n>: n bytes of URL parameters
+				q = "?p=" + strings.Repeat("x", admInt(f[3][1:]))
+			} else {
+				q = "?" + f[3] + "=1"
+			}
 		}
 		s := &admSess{name: name, kind: f[0], stream: stream(1), conn: newAdmConn("10.0.0.1:" + f[2])}
 		c.sess[name] = s
